@@ -127,6 +127,28 @@ def build_frames(st, perturb, field, kind='hex', rng=None, scale=1.0):
     return df, nodes, xyz
 
 
+def _only_hull_nans(got, want, pts):
+    """True iff got differs from want only by NaN entries, all of them at vertices of the convex hull of the source points."""
+    got, want = np.asarray(got, dtype=np.float64), np.asarray(want, dtype=np.float64)
+    bad = ~np.isclose(got, want, rtol=1e-9, atol=1e-9)
+    if not bad.any() or not np.isnan(got[bad]).all():
+        return False
+    try:
+        from scipy.spatial import ConvexHull
+        hull = set(ConvexHull(np.asarray(pts, dtype=np.float64)).vertices.tolist())
+    except Exception:
+        return False
+    return all(int(i) in hull for i in np.nonzero(bad)[0])
+
+
+def _hull_nan_known(fs, known, got, want, pts):
+    f = next((f for f in fs if f.get('match') == 'hull_vertex_nan'), None)
+    if f is not None and _only_hull_nans(got, want, pts):
+        known.add('%s: %s' % (f['id'], f['symptom']))
+        return True
+    return False
+
+
 def check_meshops(st, fs, known):
     import pylife.mesh.gradient, pylife.mesh.surface, pylife.mesh.meshmapping  # noqa
     v = []
@@ -204,13 +226,13 @@ def check_meshops(st, fs, known):
                 r_fresh = same.copy().meshmapper.process(src2, 'f')
                 if not (np.array_equal(np.isnan(r_kept['f'].to_numpy()), np.isnan(r_fresh['f'].to_numpy())) and close(np.nan_to_num(r_kept['f'].to_numpy()), np.nan_to_num(r_fresh['f'].to_numpy()))):
                     v.append(('a kept mesh mapper asked to map a second source answers differently from a fresh mapper', case, r_fresh['f'].tolist()[:4], r_kept['f'].tolist()[:4]))
-                if not close(r['f'].to_numpy(), src['f'].to_numpy()) or list(r.index) != list(same.index):
-                    v.append(('mapping a mesh field onto the same points does not return the field', case, None, None))
+                if (not close(r['f'].to_numpy(), src['f'].to_numpy()) or list(r.index) != list(same.index)) and not (list(r.index) == list(same.index) and _hull_nan_known(fs, known, r['f'].to_numpy(), src['f'].to_numpy(), same.to_numpy())):
+                    v.append(('mapping a mesh field onto the same points does not return the field', case, src['f'].tolist(), r['f'].tolist()))
                 # the target frame stores its coordinate columns in another order than the source (z, x, y against x, y, z; a foreign column in between)
                 perm_t = same[['z', 'x', 'y']].copy()
                 perm_t.insert(1, 'weight', 1.0)
                 rp = perm_t.meshmapper.process(src[['f', 'y', 'x', 'z']], 'f')
-                if not close(rp['f'].to_numpy(), src['f'].to_numpy()) or list(rp.index) != list(same.index):
+                if (not close(rp['f'].to_numpy(), src['f'].to_numpy()) or list(rp.index) != list(same.index)) and not (list(rp.index) == list(same.index) and _hull_nan_known(fs, known, rp['f'].to_numpy(), src['f'].to_numpy(), same.to_numpy())):
                     v.append(('mapping onto the same points given with their coordinate columns in another order (z, x, y / y, x, z) does not return the field', case, src['f'].tolist()[:4], rp['f'].tolist()[:4]))
                 if min(d) >= 1:
                     pts = []
@@ -258,6 +280,24 @@ def run(chk):
     quick = chk.tier == 'quick'
     tier = 'quick' if quick else 'thorough'
     fs = findings.load('C19')
+    # witness of the known finding C19-hull-vertex-nan (evaluated in both tiers; the quick instance has no block that runs into it)
+    for f in fs:
+        if f.get('match') == 'hull_vertex_nan':
+            try:
+                import pylife.mesh.meshmapping  # noqa
+                with warnings.catch_warnings():
+                    warnings.simplefilter('ignore')
+                    P = np.asarray(f['witness']['points_x_y_z'], dtype=np.float64)
+                    srcw = pd.DataFrame(P, columns=['x', 'y', 'z'], index=pd.Index([1, 5, 2, 6, 4, 8, 3, 7, 9, 10, 12, 11], name='node_id'))
+                    srcw['f'] = srcw.x + 0.5
+                    rw = srcw[['x', 'y', 'z']].copy().meshmapper.process(srcw, 'f')['f'].to_numpy()
+                chk.evals(1)
+                if _only_hull_nans(rw, srcw['f'].to_numpy(), P):
+                    chk.known.append('%s: %s' % (f['id'], f['symptom']))
+                elif not close(rw, srcw['f'].to_numpy()):
+                    chk.violation('mapping a mesh field onto the same points does not return the field', {'points': P.tolist()}, srcw['f'].tolist(), rw.tolist(), part='mapping_witness')
+            except Exception as ex:
+                chk.machinery.append('witness of C19-hull-vertex-nan raised %r' % ex)
     res = tlc.run(HS_TLA, os.path.join(SPEC, 'mesh', 'MC_Hotspot_%s.cfg' % tier), dump=True, timeout=3000, heap='12g')
     chk.tlc('MC_Hotspot_%s.cfg' % tier, res, 'region growing as coded = connected components of the thresholded entries, numbered by descending peak')
     if res.violated:
